@@ -293,7 +293,9 @@ pub fn run(ctx: &mut Ctx) {
         vec![b"spdy/3".to_vec()],
         vec![b"spdy/3".to_vec(), b"h2".to_vec()],
     ];
-    let enabled_sets: &[(bool, bool, bool)] = if ctx.thorough() { &[(true, true, true), (true, false, true), (false, true, true), (true, true, false)] } else { &[(true, true, true), (true, false, true)] };
+    // (false, true, true): with HTTP/1.1 off an empty ALPN offer selects nothing - the QUIC certificate callback must not depend on it
+    let enabled_sets: &[(bool, bool, bool)] =
+        if ctx.thorough() { &[(true, true, true), (true, false, true), (false, true, true), (true, true, false), (false, false, true)] } else { &[(true, true, true), (true, false, true), (false, true, true)] };
     let crt = tokio::runtime::Builder::new_current_thread().enable_all().build().unwrap();
     for &e in enabled_sets {
         let Some(ep) = LiveEndpoint::start(move |addr| make_core(addr, e, origin)) else {
